@@ -123,6 +123,55 @@ mod k {
         assert!((d - k).abs() <= 1.0e-6, "C11.normalize.congruent");
     }
 
+    // (a Kani proof of the length clause of checks::check for every f32 was tried: one bridge, empty model, format!
+    //  stubbed - no answer in 400 s because of the four HashSet<Uuid> the function builds first; the clause stays with
+    //  the bounded obligation C15.check)
+
+    // ---- C19 / C14: the angle helpers are total: every f32 (inf, NaN, 1e39 read from a damaged file) gives a value,
+    // no panic and no loop (an unwinding assertion fails if a loop appears)
+    #[kani::proof]
+    #[kani::unwind(2)]
+    fn c19_angle_helpers_total() {
+        let v: f32 = kani::any();
+        kani::cover!(v.is_infinite(), "infinite input reachable");
+        let r = normalize(v, 0.0, 360.0);
+        if v.is_finite() && v.abs() <= 1.0e6 {
+            assert!(r >= -1.0e-37 && r <= 360.0, "C19.normalize.range_for_moderate_values");
+        }
+        let a = crate::convert::from_ctehexml::normalize_azimuth(v);
+        let b = crate::convert::from_ctehexml::orientation_bdl_to_52016(v);
+        let _ = (Tilt::from(v), Orientation::from(v), a, b);
+    }
+
+    // ---- C04: a field may be left out of the JSON only when it holds the value it gets back on loading ---------
+    // (the serde helper pairs skip_serializing_if / default of bemodel::utils, for every f32 / bool)
+    #[kani::proof]
+    fn c04_skip_default_pairs() {
+        use crate::utils::{default_1, default_true, is_default, is_true, multiplier_is_1};
+        let m: f32 = kani::any();
+        kani::cover!(multiplier_is_1(&m), "a skipped multiplier exists");
+        if multiplier_is_1(&m) {
+            assert!(m == default_1(), "C04.skip.multiplier_loads_back");
+        }
+        assert!(multiplier_is_1(&default_1()), "C04.skip.multiplier_default_is_skipped");
+        let b: bool = kani::any();
+        if is_true(&b) {
+            assert!(b == default_true(), "C04.skip.flag_loads_back");
+        }
+        assert!(is_true(&default_true()), "C04.skip.flag_default_is_skipped");
+        let x: f32 = kani::any();
+        if is_default(&x) {
+            assert!(x == f32::default(), "C04.skip.number_loads_back");
+        } else {
+            assert!(x != 0.0 || x.is_nan(), "C04.skip.number_kept_when_different");
+        }
+        let k: u8 = kani::any();
+        let kind = match k % 3 { 0 => crate::SpaceType::CONDITIONED, 1 => crate::SpaceType::UNCONDITIONED, _ => crate::SpaceType::UNINHABITED };
+        if is_default(&kind) {
+            assert!(kind == crate::SpaceType::default(), "C04.skip.kind_loads_back");
+        }
+    }
+
     // ---- C06 / C08: rounding helpers -----------------------------------------------------------
     // The contracts themselves (requires / ensures) are attached to the real functions by the injector,
     // see contracts/anchors.json; these harnesses make Kani prove them for every f32.
